@@ -8,10 +8,13 @@ from ..mir import span_loc
 
 # declared asymmetries (DESIGN.md T2): keyed by kind, one reason each
 ASYMMETRY = {
-    "sequence_of": {"reader": {"with_buffer()"},
+    "sequence_of": {"reader": {"with_buffer()", "nest:with_buffer>scope_stashed()"},
+                    "writer": {"nest:scope_stashed>scope_stashed()"},
                     "reason": "read_sequence_of enters with_buffer where write_sequence_of only stashes the scope: identity, because a "
                               "list is never entered under an open-type scope - extension additions are always wrapped by "
-                              "write_opt/write_default, which stash the scope before the list is written"},
+                              "write_opt/write_default, which stash the scope before the list is written (a non-Option field "
+                              "behind extensible_after is rejected by the attribute macro: the generated read_seq does not "
+                              "type-check)"},
 }
 
 FRAMING = {"with_buffer", "scope_stashed", "scope_pushed", "read_whole_sub_slice"}
@@ -114,6 +117,38 @@ def skeleton(ctx, body, depth=1, subst=None, seen=None):
     return out
 
 
+NEST = ("with_buffer", "scope_stashed", "scope_pushed")
+
+
+def nesting(ctx, body, limit=4):
+    """nesting chains of the framing combinators: with_buffer(|w| w.scope_stashed(|w| T::write_value(..))) gives
+    ('with_buffer', 'scope_stashed').  Which combinator wraps which decides whether the open-type test of with_buffer sees
+    the enclosing scope or the stashed (empty) one, so writer and reader must nest them alike."""
+    P = ctx.program()
+    out = {}
+
+    def walk(b, prefix, depth):
+        O = X.Origins(b, P)
+        for cs in b.calls():
+            selfty = ((cs.fn or {}).get("impl_self_ty") or "").split("<")[0].split("::")[-1]
+            if cs.name not in NEST or selfty not in ("UperWriter", "UperReader"):
+                continue
+            chain = prefix + (cs.name,)
+            inner = None
+            for a in O.call_args(cs):
+                if a[0] == "agg" and a[1] == "closure":
+                    inner = P.bodies.get("%s::%s" % (b.crate, a[2]))
+            sub = False
+            if inner is not None and depth < limit:
+                sub = walk(inner, chain, depth + 1)
+            if not sub and len(chain) > 1:
+                out.setdefault(("nest:" + ">".join(chain), ()), []).append(cs)
+        return any(k[0].startswith("nest:" + ">".join(prefix)) for k in out) if prefix else bool(out)
+
+    walk(body, (), 0)
+    return out
+
+
 def normalise(sk, side):
     """declared equivalences between writer and reader skeletons (DESIGN.md T2)"""
     keys = set(sk)
@@ -148,6 +183,8 @@ def r2(ctx):
         depth = 1 if ctx.tier == "quick" else 3
         sw = skeleton(ctx, wb, depth)
         sr = skeleton(ctx, rb, depth)
+        sw.update(nesting(ctx, wb))
+        sr.update(nesting(ctx, rb))
         kw, kr = normalise(sw, "w"), normalise(sr, "r")
         detail = {"writer": sorted(fmt(d) for d in kw), "reader": sorted(fmt(d) for d in kr)}
         bad = False
@@ -483,7 +520,25 @@ def ld_sites(ctx, rule, files, discharged):
                 continue
             if cs.name == "write_length_determinant":
                 nw += 1
-                if payload_used(b, cs):
+                in_loop = cs.target is not None and cs.bb in b.reach_from(cs.target)
+                if payload_used(b, cs) and in_loop:
+                    # continuation fragments: X.691 11.9.3.8.3 - the encoding ends with a fragment shorter than 16K (possibly
+                    # empty), so the loop may only be left after comparing the fragment just announced with 16K
+                    leaf = "%s@%s" % (X.short(cs.callee), cs.loc())
+                    tested = None
+                    for c in F.comparisons(b, O):
+                        if c.kind == "b" and c.boundary == 16384 and c.switch_bb is not None and c.switch_bb in b.reach_from(cs.target):
+                            if any(e[0] == "call" and "%s@%s" % (X.short(e[1]), e[4]) == leaf
+                                   for sd in (c.lex, c.rex) if sd is not None for e in X.walk(sd)):
+                                tested = c
+                    if tested is None:
+                        ctx.fail(rule, key + "#loop-exit", "the continuation loop is not left by comparing the fragment size returned by "
+                                                           "write_length_determinant with 16K: a length that is an exact multiple of 16K "
+                                                           "loses its terminating (empty) fragment, or the loop does not end with a short "
+                                                           "fragment (X.691 11.9.3.8.3)", cs.loc(), detail)
+                    else:
+                        ctx.ok(rule, key, dict(detail, result="returned fragment size is used and decides the loop exit", exit_test=tested.raw[:120]))
+                elif payload_used(b, cs):
                     ctx.ok(rule, key, dict(detail, result="returned fragment size is used"))
                 elif key in discharged:
                     ctx.ok(rule, key, dict(detail, reviewed=discharged[key]))
